@@ -714,6 +714,14 @@ func GenPlan(profile, prop string, seed uint64) *Plan {
 		}
 		cfg.BatchRate = []float64{0, 0.3, 0.6, 1}[r.IntN(4)]
 		cfg.Listeners = true
+	case "txenum":
+		// one task: a few fault-free set-up transactions, then the target transaction whose every failure
+		// position x kind is enumerated by the C07 check
+		cfg.Tasks = 1
+		cfg.TxPerTask = 1 + r.IntN(6)
+		cfg.PValid = 0.97
+		cfg.Listeners = true
+		cfg.Weights = map[string]int{"create": 44, "update": 20, "delete": 6, "link": 20, "rc": 10}
 	default:
 		panic("GenPlan: unknown profile " + profile)
 	}
@@ -731,6 +739,15 @@ func GenPlan(profile, prop string, seed uint64) *Plan {
 			tp.Txs = append(tp.Txs, g.genTx())
 		}
 		p.Tasks = append(p.Tasks, tp)
+	}
+	if profile == "txenum" {
+		g.cfg.Weights = defaultWeights("C07")
+		delete(g.cfg.Weights, "preCommit") // F4 is enumerated explicitly
+		g.cfg.PValid = []float64{0.85, 1}[r.IntN(2)]
+		g.cfg.MaxOps = 1 + r.IntN(5)
+		g.cfg.BatchRate = 0.3
+		t := &p.Tasks[0]
+		t.Txs = append(t.Txs, g.genTx())
 	}
 	p.MaxSteps = 40 + 12*p.NumOps()
 	return p
